@@ -286,6 +286,8 @@ def _close(a, b):
         return len(a) == len(b) and all(_close(x, y) for x, y in zip(a, b))
     if isinstance(a, bool) or isinstance(b, bool) or a == b:
         return a == b
+    if b in (float("inf"), float("-inf")) or b != b:
+        return False  # an infinite expected value is met exactly (handled above) or not at all
     return abs(a - b) <= 1e-6 * (1 + abs(b))
 
 
